@@ -99,17 +99,19 @@ def run_cases(ctx, n_models, n_states, gen_opts=None, seed_offset=0):
       args = st + wire.vec_tokens(q) + wire.vec_tokens(qd)
       lines.append(' '.join(['fwd'] + args))
       lines.append(' '.join(['mjfwd'] + args))
-      cases.append(dict(xml=xml, q=q, qd=qd, real=real, mpos=mpos, mquat=mquat, types=meta['link_types'],
+      lines.append(' '.join(['mjvel'] + args))
+      cases.append(dict(xml=xml, q=q, qd=qd, real=real, mpos=mpos, mquat=mquat, mvel=mvel, types=meta['link_types'],
                         parents=meta['parents']))
   out = C.run_driver('Driver/C01.lean', lines)
   disagreements = []
   for k, c in enumerate(cases):
-    o_fwd, o_mj = out[2 * k], out[2 * k + 1]
+    o_fwd, o_mj, o_mv = out[3 * k], out[3 * k + 1], out[3 * k + 2]
     n = len(c['types'])
-    if o_fwd.startswith('bad') or o_mj.startswith('bad'):
+    if o_fwd.startswith('bad') or o_mj.startswith('bad') or o_mv.startswith('bad'):
       disagreements.append(dict(what=f'driver: {o_fwd[:20]} / {o_mj[:20]}', xml=c['xml'])); continue
     mod = np.array([wire.parse(t) for t in o_fwd.split()]).reshape(n, 13)
     spec = np.array([wire.parse(t) for t in o_mj.split()]).reshape(n, 7)
+    specv = np.array([wire.parse(t) for t in o_mv.split()]).reshape(n, 13)
     real = c['real']
     for i in range(n):
       if not (np.allclose(mod[i, :3], real[i, :3], atol=TOL, rtol=TOL) and quat_close(mod[i, 3:7], real[i, 3:7], TOL)
@@ -123,6 +125,11 @@ def run_cases(ctx, n_models, n_states, gen_opts=None, seed_offset=0):
                                   xml=c['xml'], q=c['q'].tolist(), lean=spec[i].tolist(),
                                   mujoco=np.concatenate([c['mpos'][i], c['mquat'][i]]).tolist()))
         break
+      if not np.allclose(specv[i, 7:], c['mvel'][i], atol=1e-8, rtol=0):
+        disagreements.append(dict(what=f'Spec Mj.kinematicsVel (Lean) differs from mujoco.mj_objectVelocity at link {i} of {c["types"]}',
+                                  xml=c['xml'], q=c['q'].tolist(), qd=c['qd'].tolist(), lean=specv[i, 7:].tolist(),
+                                  mujoco=c['mvel'][i].tolist()))
+        break
   return cases, disagreements, spec_failures, hist
 
 
@@ -131,7 +138,7 @@ def correspond(ctx):
   distinct = len({(c['types'], tuple(c['parents'])) for c in cases})
   sample = dict(link_types=cases[0]['types'], parents=cases[0]['parents'], q=cases[0]['q'].tolist()[:8])
   return dict(
-      evaluations=2 * len(cases), distinct_nontrivial=distinct,
+      evaluations=3 * len(cases), distinct_nontrivial=distinct,
       rule='generator forests (1-6 links, free/world roots, 1-3 stacked hinge/slide joints with arbitrary axes, '
            'offsets, anchors) x 3 states (q in [-2,2], unit root quaternions, qd in [-1,1]); each case: real '
            'kinematics.forward vs Lean Kin.forward (1e-9), Lean Mj.kinematics vs mujoco.mj_forward (1e-8), and real '
@@ -168,3 +175,18 @@ def replay(ctx, rp):
   got = np.concatenate([np.asarray(xd.ang)[i], np.asarray(xd.vel)[i]])
   ok = np.allclose(got, mvel[i], atol=1e-8)
   return bool(ok), f'link {i}: brax vel {got} mujoco {mvel[i]}'
+
+
+def reproduce_known(ctx, entry):
+  """re-run a listed known finding (velocity of a stacked / offset-anchor link) on the current tree"""
+  _setup()
+  import jax.numpy as jp
+  from brax import kinematics
+  from brax.io import mjcf
+  sysm = mjcf.loads(entry['xml'])
+  q, qd = np.array(entry['q']), np.array(entry['qd'])
+  x, xd = kinematics.forward(sysm, jp.asarray(q), jp.asarray(qd))
+  _, _, mvel = mj_reference(sysm, q, qd)
+  i = entry['link']
+  got = np.concatenate([np.asarray(xd.ang)[i], np.asarray(xd.vel)[i]])
+  return not np.allclose(got, mvel[i], atol=1e-8)
